@@ -452,7 +452,9 @@ impl<'a> Compiler<'a> {
                         .iter()
                         .take(depth)
                         .flat_map(|x| [x.as_ref(), "."])
-                        .chain([alias, ".", s.unwrap_or(suffix)].iter().copied())
+                        // the imported module's path without its leading `super.` segments,
+                        // then the rest of the called name
+                        .chain([s.unwrap_or(alias), ".", suffix].iter().copied())
                         .collect::<String>();
 
                     to = jump_table.get(&name);
